@@ -693,6 +693,7 @@ func (c *Conn) WriteMessage(messageType MessageType, data []byte) error {
 		return net.ErrClosed
 	}
 
+	isControl := false
 	switch messageType {
 	case TextMessage:
 	case BinaryMessage:
@@ -700,6 +701,7 @@ func (c *Conn) WriteMessage(messageType MessageType, data []byte) error {
 		if len(data) > maxControlFramePayloadSize {
 			return ErrControlMessageTooBig
 		}
+		isControl = true
 	case FragmentMessage:
 	default:
 	}
@@ -733,7 +735,8 @@ func (c *Conn) WriteMessage(messageType MessageType, data []byte) error {
 		sendCompress := compress
 		for len(data) > 0 {
 			n := len(data)
-			if n > c.Engine.MaxWebsocketFramePayloadSize {
+			// control frames must not be fragmented.
+			if n > c.Engine.MaxWebsocketFramePayloadSize && !isControl {
 				n = c.Engine.MaxWebsocketFramePayloadSize
 			}
 			err := c.writeFrame(messageType, sendOpcode, n == len(data), data[:n], sendCompress)
